@@ -15,6 +15,7 @@ RULE = ("sweep: min_size in {0,1,2,100} x pre-existing active file in {absent, 0
         "and window rollers). "
         "non-trivial = at least one append; distinct = distinct case line")
 ASSUMPTIONS = list(rc.COMMON_ASSUMPTIONS)
+RELEASE_TOO = True          # the cases also run through the release-profile harness (see ./check)
 EXHAUSTIVE = {"quick": False, "thorough": False}
 
 
